@@ -29,8 +29,13 @@ import sys, os, gc, subprocess, hashlib, shutil, fcntl, signal, weakref, sysconf
 
 ROOT = os.path.dirname(os.path.dirname(os.path.dirname(os.path.abspath(__file__))))
 BUILD = os.path.join(ROOT, "build")
+BUILD_SH = os.path.join(BUILD, "cext", "build.sh")
+# self-test of the checker only (mutated copies of the sources in a scratch directory):
+#   C_HARNESS_SRC=<dir with the .c/.h files>  C_HARNESS_OUT=<scratch build root>
+REPO_SRC = os.environ.get("C_HARNESS_SRC", "/repo/python/bplustree_c_src")
+if "C_HARNESS_OUT" in os.environ:
+    BUILD = os.environ["C_HARNESS_OUT"]
 CEXT = os.path.join(BUILD, "cext")
-REPO_SRC = "/repo/python/bplustree_c_src"
 REPO_PKG = "/repo/python/bplustree"
 VARIANTS = {
     "plain": [],
@@ -46,7 +51,7 @@ def source_hash():
     h = hashlib.sha256()
     files = sorted(glob.glob(os.path.join(REPO_SRC, "*.[ch]"))) + \
         [os.path.join(REPO_PKG, "__init__.py"), os.path.join(REPO_PKG, "bplus_tree.py"),
-         os.path.join(CEXT, "build.sh")]
+         BUILD_SH]
     for f in files:
         h.update(f.encode())
         h.update(open(f, "rb").read())
@@ -69,8 +74,14 @@ def build(force=False):
         for v, flags in VARIANTS.items():
             tmp = os.path.join(CEXT, v + ".tmp")
             shutil.rmtree(tmp, ignore_errors=True)
-            r = subprocess.run(["bash", os.path.join(CEXT, "build.sh"), tmp] + flags,
-                               stdout=subprocess.PIPE, stderr=subprocess.STDOUT)
+            if "C_HARNESS_SRC" in os.environ:       # self-test: same command line as build.sh, other source dir
+                os.makedirs(tmp, exist_ok=True)
+                cmd = ["gcc", "-O1", "-g", "-shared", "-fPIC", "-std=gnu99", "-fno-strict-aliasing"] + flags + \
+                    ["-I" + sysconfig.get_paths()["include"], "-I" + REPO_SRC] + sorted(glob.glob(os.path.join(REPO_SRC, "*.c"))) + \
+                    ["-o", os.path.join(tmp, "bplustree_c" + suf)]
+            else:
+                cmd = ["bash", BUILD_SH, tmp] + flags
+            r = subprocess.run(cmd, stdout=subprocess.PIPE, stderr=subprocess.STDOUT)
             if r.returncode != 0:
                 return "building variant %s failed:\n%s" % (v, r.stdout.decode("utf-8", "replace"))
             os.makedirs(os.path.join(CEXT, v), exist_ok=True)
